@@ -352,18 +352,32 @@ def job_cell(job):
         model = dict(model or {})
         if href_fail is not None and 'href' in lab:
             model['img%d' % href_fail[0]] = href_fail[1] - 0x20
-        req, doc = native_svg(native, v, n, types, model, cfg, layers, with_image, img_len, margin)
         confirmed, what = False, 'not reproduced: %s' % lab
         key = 'C12/svg'
-        if doc is None:
-            confirmed, what = True, 'to_str panics: %s' % req[:80]
-        else:
-            problem = semantic_problem(doc, v, n, model, margin, layers, with_image, [0x20 + model.get('img%d' % i, 0x21) % 95 for i in range(img_len)])
+        # the solver's model, then an asymmetric and an all-dark module pattern (structural obligations have no model)
+        rr = random.Random(seed + 99)
+        envs = [dict(model)]
+        e2 = dict(model)
+        e2.update({'m%d' % i: 1 if (i // n) * 3 < (i % n) or rr.random() < 0.2 else 0 for i in range(n * n)})
+        e3 = dict(model)
+        e3.update({'m%d' % i: 1 for i in range(n * n)})
+        envs += [e2, e3]
+        for name_ in T.all_vars():
+            for e_ in envs:
+                e_.setdefault(name_, rr.randrange(256) if not name_.startswith('m') else 0)
+        req = ''
+        for e_ in envs:
+            req, doc = native_svg(native, v, n, types, e_, cfg, layers, with_image, img_len, margin)
+            if doc is None:
+                confirmed, what = True, 'to_str panics: %s' % req[:80]
+                break
+            problem = semantic_problem(doc, v, n, e_, margin, layers, with_image, [0x20 + e_.get('img%d' % i, 0x21) % 95 for i in range(img_len)])
             if problem:
                 confirmed = True
                 what = problem
-                if 'href' in problem or 'well-formed' in problem and with_image:
+                if 'href' in problem or ('well-formed' in problem and with_image):
                     key = 'C12/image.href-escaping'
+                break
         res['failures'].append({'key': key, 'what': what, 'confirmed': confirmed, 'obligation': lab, 'replay': {'request': req[:4000]}})
     res['vacuity'] = 1 if solver.check([T.eq(1, mvals[0], 1)])[0] == 'sat' else 0
     # translator validation: a concrete configuration through the native builder
@@ -417,8 +431,19 @@ def semantic_problem(doc, v, n, env, margin, layers, with_image, img):
         return 'SVG is not well-formed XML (%s) with image string %r' % (e, bytes(img)) if with_image else 'SVG is not well-formed XML (%s)' % e
     if els[0][0] != 'svg' or els[0][1].get('viewBox') != '0 0 %d %d' % (side, side):
         return 'viewBox is %r, expected "0 0 %d %d"' % (els[0][1].get('viewBox'), side, side)
+    def colour_text(name):
+        c = [env.get('%s_%s' % (name, ch), 0) & 0xFF for ch in 'rgba']
+        return '#%02x%02x%02x' % tuple(c[:3]) + ('%02x' % c[3] if c[3] != 255 else '')
+    rects = [e for e in els if e[0] == 'rect']
+    if not rects or rects[0][1].get('fill') != colour_text('bg'):
+        return 'background fill is %r, the configured background colour is %s' % (rects[0][1].get('fill') if rects else None, colour_text('bg'))
     paths = [e for e in els if e[0] == 'path']
+    if len(paths) != max(1, len(layers)):
+        return '%d path elements for %d layers' % (len(paths), max(1, len(layers)))
     for li, pe in enumerate(paths):
+        want_col = colour_text('l%d' % li) if (li < len(layers) and layers[li][1]) else colour_text('fg')
+        if pe[1].get('fill') != want_col:
+            return 'layer %d is filled with %r, its colour is %s' % (li, pe[1].get('fill'), want_col)
         subs = ['M' + t for t in pe[1].get('d', '').split('M')[1:]]
         want = [(i // n, i % n) for i in range(n * n) if env.get('m%d' % i, 0) & 1]
         if len(subs) != len(want):
@@ -426,7 +451,7 @@ def semantic_problem(doc, v, n, env, margin, layers, with_image, img):
         got = set()
         for t in subs:
             x0, y0, x1, y1 = path_bbox(t)
-            got.add((int(y0 + 0.11) - margin, int(x0 + 0.11) - margin))
+            got.add((int((y0 + y1) / 2) - margin, int((x0 + x1) / 2) - margin))
         if got != set(want):
             miss = sorted(set(want) - got)[:2]
             return 'layer %d: dark modules %s have no sub-path anchored at (column+margin,row+margin)' % (li, miss)
